@@ -75,22 +75,33 @@ struct History {
     term: Term,
 }
 
-fn gen_err(rng: &mut Rng, uid: &mut u32) -> ErrSpec {
+/// the running uid and the error generated last
+type GenState = (u32, Option<ErrSpec>);
+
+fn gen_err(rng: &mut Rng, st: &mut GenState) -> ErrSpec {
+    // the same error recorded again (same kind, same text, same span or none): recorded twice, it is
+    // reported twice
+    if let (Some(prev), true) = (&st.1, rng.chance(1, 6)) {
+        return prev.clone();
+    }
+    let uid = &mut st.0;
     let mut next = |rng: &mut Rng| {
         *uid += 1;
         (*uid, if rng.chance(1, 3) { 6 + rng.below(6) as u8 } else { rng.below(6) as u8 })
     };
-    if rng.chance(1, 4) {
+    let e = if rng.chance(1, 4) {
         let n = rng.range(2, 4);
         ErrSpec::Many((0..n).map(|_| next(rng)).collect())
     } else {
         let (u, k) = next(rng);
         ErrSpec::One(u, k)
-    }
+    };
+    st.1 = Some(e.clone());
+    e
 }
 
 fn gen_history(rng: &mut Rng, unwind: bool) -> History {
-    let mut uid = 0;
+    let mut uid: GenState = (0, None);
     // a third of the histories record nothing, so that the Ok side is well covered
     let clean = rng.chance(1, 3);
     let len = if rng.chance(1, 8) { 0 } else { rng.range(1, 40) };
